@@ -56,8 +56,8 @@ DoneQuery(v) ==
   /\ lastdone' = IF v THEN "true" ELSE "false"
   /\ UNCHANGED <<max_iter, iter, upd, early, run, iter0, runupd>>   \* a query never changes state
 
-RunBegin ==
-  /\ run = "none" /\ upd = "idle"
+RunBegin ==                                     \* (also a second run() of an app that has finished: it finds done() True at once)
+  /\ run \in {"none", "finished"} /\ upd = "idle"
   /\ run' = "running" /\ iter0' = iter /\ runupd' = 0 /\ lastdone' = "unknown"
   /\ UNCHANGED <<max_iter, iter, upd, early>>
 
